@@ -78,7 +78,8 @@ def run_seq_with_tasks(laze, files, steps):
         ts = os.path.join(tmp, "task.sh"); open(ts, "w").write(TASK_SCRIPT)
         for st in steps:
             c = st["cli"]
-            args = [laze, "-C", root, "build", "-g"] + (["-G"] if st.get("generate_only") else []) + proj.argv(c) + st["args"]
+            start = os.path.join(root, c["local"]) if c.get("local") not in (None, ".") else root
+            args = [laze, "-C", start, "build"] + ([] if c.get("local") is not None else ["-g"]) + (["-G"] if st.get("generate_only") else []) + proj.argv(c) + st["args"]
             nlog = os.path.join(tmp, "ninja.log"); tlog = os.path.join(tmp, "task.log")
             for p in (nlog, tlog):
                 if os.path.exists(p): os.remove(p)
